@@ -97,7 +97,7 @@ theorem pushScalar_complete (ext : Ext) : ∀ (b : B) (x : SVal) (dt : DataType)
   | .null p len, x, dt, n, md, lv, _, hs, _, _, hi => by
     simp only [Shape] at hs
     obtain ⟨rfl, _⟩ := hs
-    cases x <;> simp [interpScalar, fail] at hi
+    cases x <;> simp [interpScalar_eq_old, normErr_ok_iff, interpScalarOld, fail] at hi
     exact ⟨_, rfl, by simp [room]⟩
   | .unknownVariant p, x, dt, n, md, lv, _, hs, hu, _, _ => by
     simp only [Shape] at hs
@@ -105,7 +105,7 @@ theorem pushScalar_complete (ext : Ext) : ∀ (b : B) (x : SVal) (dt : DataType)
     rw [hu] at hu'; cases hu'
   | .leaf p k v vals, x, dt, n, md, lv, _, hs, _, _, hi => by
     simp only [Shape] at hs
-    rw [interpScalar_kind hs.1] at hi
+    rw [interpScalar_kind hs.1, normErr_ok_iff] at hi
     obtain ⟨val, hc, _⟩ := (bind_ok _ _ _).1 hi
     obtain ⟨v', hv⟩ := setValidity_true_total v vals.length
     refine ⟨.leaf p k v' (vals ++ [val]), ?_, by simp [room]⟩
@@ -122,7 +122,7 @@ theorem pushScalar_complete (ext : Ext) : ∀ (b : B) (x : SVal) (dt : DataType)
       else match x with
         | .bytes bs => .ok bs
         | _ => notSupported s!"serialize_{x.kind}" : R Bytes) = .ok bs ∧ bs.length + 1 ≤ vsize ext x := by
-      cases ty <;> simp only [bytesDT, interpScalar, isUtf8Ty, if_true, Bool.false_eq_true, if_false] at hi ⊢
+      cases ty <;> simp only [bytesDT, interpScalar_eq_old, normErr_ok_iff, interpScalarOld, isUtf8Ty, if_true, Bool.false_eq_true, if_false] at hi ⊢
       · cases hs : scalarToString ext x with
         | none => simp [hs, fail] at hi
         | some s => exact ⟨_, rfl, vsize_strLen hs⟩
@@ -148,7 +148,7 @@ theorem pushScalar_complete (ext : Ext) : ∀ (b : B) (x : SVal) (dt : DataType)
       else match x with
         | .bytes bs => .ok bs
         | _ => notSupported s!"serialize_{x.kind}" : R Bytes) = .ok bs ∧ bs.length + 1 ≤ vsize ext x := by
-      cases ty <;> simp only [viewDT, interpScalar] at hi ⊢
+      cases ty <;> simp only [viewDT, interpScalar_eq_old, normErr_ok_iff, interpScalarOld] at hi ⊢
       · cases hs : scalarToString ext x with
         | none => simp [hs, fail] at hi
         | some s => exact ⟨strBytes s, by rw [if_pos (by decide)], vsize_strLen hs⟩
@@ -173,7 +173,7 @@ theorem pushScalar_complete (ext : Ext) : ∀ (b : B) (x : SVal) (dt : DataType)
     obtain ⟨v', hv⟩ := setValidity_true_total v len
     cases x with
     | bytes bs =>
-      simp [interpScalar, fail] at hi
+      simp [interpScalar_eq_old, normErr_ok_iff, interpScalarOld, fail] at hi
       refine ⟨.fixedSizeBinary p m (len + 1) v' (buf ++ bs) cur, ?_, by simp [room]⟩
       have : (bs.length != m) = false := by
         by_cases hm : (bs.length : Int) = (m : Int)
@@ -181,7 +181,7 @@ theorem pushScalar_complete (ext : Ext) : ∀ (b : B) (x : SVal) (dt : DataType)
         · simp [hm] at hi
       simp only [pushScalar, this, Bool.false_eq_true, if_false]
       exact (bind_ok _ _ _).2 ⟨_, hv, rfl⟩
-    | _ => simp [interpScalar, fail] at hi
+    | _ => simp [interpScalar_eq_old, normErr_ok_iff, interpScalarOld, fail] at hi
   | .dictionary p idx vals index, x, dt, n, md, lv, hwf, hs, _, hr, hi => by
     simp only [Shape] at hs
     obtain ⟨⟨kdt, vdt, rfl, hsv⟩, hil, _, hu8⟩ := hs
@@ -216,22 +216,22 @@ theorem pushScalar_complete (ext : Ext) : ∀ (b : B) (x : SVal) (dt : DataType)
   | .list p large fm v offs el, x, dt, n, md, lv, _, hs, _, _, hi => by
     simp only [Shape] at hs
     obtain ⟨_, cname, cdt, cn, cmd, rfl, _⟩ := hs
-    cases large <;> simp [interpScalar, fail] at hi
+    cases large <;> simp [interpScalar_eq_old, normErr_ok_iff, interpScalarOld, fail] at hi
   | .fixedSizeList p fm m len v cur el, x, dt, n, md, lv, _, hs, _, _, hi => by
     simp only [Shape] at hs
     obtain ⟨_, cname, cdt, cn, cmd, rfl, _⟩ := hs
-    simp [interpScalar, fail] at hi
+    simp [interpScalar_eq_old, normErr_ok_iff, interpScalarOld, fail] at hi
   | .map p mm v offs ks vs, x, dt, n, md, lv, _, hs, _, _, hi => by
     simp only [Shape] at hs
     obtain ⟨_, ename, kn, kdt, knl, kmd, vn, vdt, vnl, vmd, rest, en, emd, sorted, rfl, _, _⟩ := hs
-    simp [interpScalar, fail] at hi
+    simp [interpScalar_eq_old, normErr_ok_iff, interpScalarOld, fail] at hi
   | .struct p len v fs cached next seen, x, dt, n, md, lv, _, hs, _, _, hi => by
     simp only [Shape] at hs
     obtain ⟨_, sfs, rfl, _⟩ := hs
-    simp [interpScalar, fail] at hi
+    simp [interpScalar_eq_old, normErr_ok_iff, interpScalarOld, fail] at hi
   | .union p fs types offs cur, x, dt, n, md, lv, _, hs, _, _, hi => by
     simp only [Shape] at hs
     obtain ⟨ufs, mode, rfl, _⟩ := hs
-    simp [interpScalar, fail] at hi
+    simp [interpScalar_eq_old, normErr_ok_iff, interpScalarOld, fail] at hi
 
 end SaModel.Build
